@@ -157,7 +157,7 @@ pub fn build(g: &Grammar, thorough: bool) -> Vec<Case9> {
     for (si, (label, ns, referrer)) in sites.iter().enumerate() {
         let label = &if si >= n_plain { format!("{label} (target named several times)") } else { label.to_string() };
         for tk in kinds_of(*ns) {
-            for overlap in ["absent", "identical", "conflict", "conflict+merge-taken", "conflict+merge-name-in-B", "conflict-other-kind"] {
+            for overlap in ["absent", "identical", "conflict", "conflict+merge-taken", "conflict+merge-name-in-B", "conflict-other-kind", "both-conflict:X+X.MERGE", "both-conflict:X+X.MERGE+X.MERGE2"] {
                 // (A holds an element of another kind of the same namespace under the name X)
                 let other_kinds: Vec<&str> = kinds_of(*ns).into_iter().filter(|k| *k != tk).collect();
                 if overlap == "conflict-other-kind" && other_kinds.is_empty() {
@@ -188,6 +188,23 @@ pub fn build(g: &Grammar, thorough: bool) -> Vec<Case9> {
                                     let mut r2 = r2;
                                     r2.name = "R2".into();
                                     b.push(r2);
+                                }
+                            }
+                        }
+                        "both-conflict:X+X.MERGE" | "both-conflict:X+X.MERGE+X.MERGE2" => {
+                            // both files are products of earlier merges: X and X.MERGE (and X.MERGE2) exist on both sides and all of them
+                            // differ, so several elements of B get a fresh name in one merge; each has a referrer of its own in B
+                            let names: Vec<&str> = if overlap.ends_with("MERGE2") { vec!["X.MERGE", "X.MERGE2"] } else { vec!["X.MERGE"] };
+                            a.push(e(tk, "X", "c2"));
+                            for (k, n) in names.iter().enumerate() {
+                                a.push(e(tk, n, "c2"));
+                                b.push(e(tk, n, if k == 0 { "c3" } else { "c1" }));
+                                if !referrer.name.is_empty() {
+                                    if let Some((_, _, r2)) = referrers(n).into_iter().find(|(l, _, _)| l == label) {
+                                        let mut r2 = r2;
+                                        r2.name = format!("R{}", k + 2);
+                                        b.push(r2);
+                                    }
                                 }
                             }
                         }
@@ -314,7 +331,7 @@ pub fn run(tier: &str) -> Run {
         }
     }
     run.require("reference structure preserved", 500);
-    run.rule = "every reference position of the grammar (60 referrer shapes incl. positions nested in AXIS_DESCR / OVERWRITE / VAR_CRITERION and the singletons MOD_COMMON, VARIANT_CODING) x every kind of the target namespace x target overlap {absent, identical, conflicting, conflicting and X.MERGE taken in A, conflicting and X.MERGE present in B with its own referrer} x referrer {new, conflicting}; a same-named conflicting element in another namespace; identifier positions that are not references (criterion names, OVERWRITE name, DISPLAY_IDENTIFIER) equal to a renamed object name; thorough: all pairs of positions. Oracle: the element that represents B's referrer holds, at every position, the name of the element that represents its original target (observed renaming).".into();
+    run.rule = "every reference position of the grammar (60 referrer shapes incl. positions nested in AXIS_DESCR / OVERWRITE / VAR_CRITERION and the singletons MOD_COMMON, VARIANT_CODING) x every kind of the target namespace x target overlap {absent, identical, conflicting, conflicting and X.MERGE taken in A, conflicting and X.MERGE present in B with its own referrer, X and X.MERGE (and X.MERGE2) conflicting on both sides with a referrer each} x referrer {new, conflicting}; a same-named conflicting element in another namespace; identifier positions that are not references (criterion names, OVERWRITE name, DISPLAY_IDENTIFIER) equal to a renamed object name; thorough: all pairs of positions. Oracle: the element that represents B's referrer holds, at every position, the name of the element that represents its original target (observed renaming).".into();
     run.assumptions = vec!["elements of B that are shared as identical are A's elements (their references are A's)".into()];
     run
 }
